@@ -24,6 +24,7 @@ IsConstantExpr(e) ==
     [] e.k = "undefined" -> TRUE
     [] e.k = "arrlit" -> \A i \in 1..Len(e.xs) : IsConstantExpr(e.xs[i])
     [] e.k = "objlit" -> \A i \in 1..Len(e.es) : IsConstantExpr(e.es[i][2])
+    [] e.k = "objlitc" -> \A i \in 1..Len(e.ces) : IsConstantExpr(e.ces[i][1]) /\ IsConstantExpr(e.ces[i][3])   \* key and value
     [] OTHER -> FALSE
 IsConstantValue(v) ==
   CASE v.k = "str" -> TRUE
